@@ -1,6 +1,7 @@
 package props
 
 import (
+	"go/token"
 	"fmt"
 	"go/types"
 	"sort"
@@ -28,6 +29,9 @@ func init() {
 			{Name: "revert-F11a-updates-only", File: "pkg/trait/enterleavesensorpb/model_server.go", Old: ", resource.WithUpdatesOnly(request.UpdatesOnly)) {", New: ") {", Expect: "R14.2"},
 			{Name: "revert-F11b-read-mask", File: "pkg/trait/metadatapb/collection_server.go", Old: "return s.model.GetMetadata(request.Name, resource.WithReadMask(request.ReadMask))", New: "return s.model.GetMetadata(request.Name)", Expect: "R14.1"},
 			{Name: "revert-F12-assert-first", File: "pkg/trait/airtemperaturepb/memory.go", Old: "\tif err != nil {\n\t\treturn nil, err\n\t}\n\treturn update.(*traits.AirTemperature), nil", New: "\treturn update.(*traits.AirTemperature), err", Expect: "R14.5"},
+			{Name: "validate-after-the-write", File: "pkg/trait/fanspeedpb/model.go", Old: "\tval, err := m.fanSpeed.Set(fanSpeed, opts...)\n", New: "\tval, err := m.fanSpeed.Set(fanSpeed, opts...)\n\tif val != nil {\n\t\tif verr := m.validateUpdate(val.(*traits.FanSpeed)); verr != nil {\n\t\t\treturn nil, verr\n\t\t}\n\t}\n", Expect: "R14.8"},
+			{Name: "dispense-error-without-restoring", File: "pkg/trait/vendingpb/model.go", Old: "\t\t\tmaskedErr = err\n\t\t\tproto.Reset(newVal)\n\t\t\tproto.Merge(newVal, oldVal)\n\t\t\treturn", New: "\t\t\tmaskedErr = err\n\t\t\treturn", Expect: "R14.8"},
+			{Name: "seed-read-when-updates-only", File: "pkg/resource/value.go", Old: "\tif !config.UpdatesOnly {\n\t\tr.mu.RLock()\n\t\tdefer r.mu.RUnlock()\n\t\tvalue = r.value\n\t\tchangeTime = r.changeTime\n\t}", New: "\tr.mu.RLock()\n\tdefer r.mu.RUnlock()\n\tvalue = r.value\n\tchangeTime = r.changeTime", Expect: "R14.7"},
 			{Name: "getters-instead-of-fields", Silent: true, File: "pkg/trait/onoffpb/model_server.go", Old: "return s.model.GetOnOff(resource.WithReadMask(req.ReadMask))", New: "return s.model.GetOnOff(resource.WithReadMask(req.GetReadMask()))"},
 		},
 	})
@@ -222,11 +226,15 @@ func runC14(c *an.Ctx) {
 	}
 	r144models(c)
 	r145(c, "R14.5")
+	r147(c)
+	r148(c)
 	c.Min("R14.1", 30)
 	c.Min("R14.2", 20)
 	c.Min("R14.3", 20)
 	c.Min("R14.4", 30)
 	c.Min("R14.5", 40)
+	c.Min("R14.7", 4)
+	c.Min("R14.8", 80)
 	c.Min("R14.6", 15)
 }
 
@@ -490,5 +498,357 @@ func r145(c *an.Ctx, rule string) {
 				c.Ok(rule, cons, call.Pos(), "")
 			}
 		})
+	}
+}
+
+// ---- R14.7: seed values only without updates-only --------------------------------------------
+
+func r147(c *an.Ctx) {
+	const rule = "R14.7"
+	isUpdatesOnlyEdgeFalse := func(e an.CondEdge) bool {
+		cond := e.If.Cond
+		neg := false
+		for {
+			if u, ok := cond.(*ssa.UnOp); ok && u.Op == token.NOT {
+				cond, neg = u.X, !neg
+				continue
+			}
+			break
+		}
+		_, _, f, isF := an.FieldOf(cond)
+		if !isF || f != "UpdatesOnly" {
+			return false
+		}
+		// the edge on which UpdatesOnly is false
+		return e.Branch == neg
+	}
+	for _, recv := range []string{"Value", "Collection"} {
+		fn := mustFunc(c, rule, resPkg, recv, "onUpdate")
+		if fn == nil {
+			continue
+		}
+		name := an.FuncName(fn)
+		c.SawFunc(name)
+		ok := true
+		var where token.Pos = fn.Pos()
+		for _, r := range an.Returns(fn) {
+			for i := 1; i < len(r.Results); i++ {
+				for _, v := range an.ValuesAt(r.Results[i]) {
+					if an.IsNilConst(v) {
+						continue
+					}
+					if _, isC := v.(*ssa.Const); isC {
+						continue
+					}
+					in, isInstr := v.(ssa.Instruction)
+					if !isInstr {
+						ok, where = false, r.Pos()
+						continue
+					}
+					g := false
+					for _, e := range an.GuardingEdges(in) {
+						if isUpdatesOnlyEdgeFalse(e) {
+							g = true
+						}
+					}
+					if !g {
+						ok, where = false, in.Pos()
+					}
+				}
+			}
+		}
+		c.Check(ok, rule, name+"|the current state is read only when updates-only is off", where, "", "onUpdate returns current state that was not read under `!config.UpdatesOnly`: a Pull that asked for updates only is sent the current value first")
+	}
+	// seeds are built only where onUpdate's atomic snapshot-and-subscribe is used
+	n := 0
+	for _, fn := range c.Prog.FuncsIn(resPkg) {
+		an.Instrs(fn, func(in ssa.Instruction) {
+			st, ok := in.(*ssa.Store)
+			if !ok {
+				return
+			}
+			_, stName, f, isF := an.FieldOf(st.Addr)
+			if !isF || f != "SeedValue" || !(strings.HasSuffix(stName, ".ValueChange") || strings.HasSuffix(stName, ".CollectionChange")) {
+				return
+			}
+			if b, isC := an.ConstBool(st.Val); !isC || !b {
+				return
+			}
+			n++
+			top := fn
+			for top.Parent() != nil {
+				top = top.Parent()
+			}
+			uses := false
+			for _, f2 := range an.WithClosures(top) {
+				for _, call := range an.CallsIn(f2, func(s string) bool { return strings.HasSuffix(s, ").onUpdate") }) {
+					_ = call
+					uses = true
+				}
+			}
+			c.Check(uses, rule, an.FuncName(top)+"|a seed change is built from onUpdate's snapshot", st.Pos(), "", "a change marked SeedValue is constructed in a function that does not obtain the current state from onUpdate (which reads it only when updates-only is off, atomically with subscribing): the seed is sent regardless of updates_only, and is not ordered with the subscription")
+		})
+	}
+	if n < 2 {
+		c.Unk(rule, "pkg/resource|seed literals", 0, fmt.Sprintf("%d seed literals found, 2 expected (Value.Pull, Collection.Pull)", n))
+	}
+}
+
+// ---- R14.8: a rejected update leaves the state unchanged --------------------------------------
+
+var resourceWrites = []string{"pkg/resource.Value).Set", "pkg/resource.Collection).Update", "pkg/resource.Collection).Add", "pkg/resource.Collection).Delete"}
+
+func isResourceWrite(call ssa.CallInstruction) bool {
+	n := an.CalleeName(call)
+	for _, w := range resourceWrites {
+		if strings.HasSuffix(n, w) {
+			return true
+		}
+	}
+	return false
+}
+
+func r148(c *an.Ctx) {
+	const rule = "R14.8"
+	// functions that (transitively, within pkg/trait) perform a resource write in their own body
+	memo := map[*ssa.Function]int{}
+	var writes func(fn *ssa.Function, depth int) bool
+	writes = func(fn *ssa.Function, depth int) bool {
+		if fn == nil || len(fn.Blocks) == 0 || depth > 3 {
+			return false
+		}
+		if v, ok := memo[fn]; ok {
+			return v == 1
+		}
+		memo[fn] = 0
+		res := false
+		an.Instrs(fn, func(in ssa.Instruction) {
+			call, ok := in.(ssa.CallInstruction)
+			if !ok {
+				return
+			}
+			if isResourceWrite(call) {
+				res = true
+				return
+			}
+			if cal := call.Common().StaticCallee(); cal != nil && cal.Package() != nil && strings.HasPrefix(cal.Package().Pkg.Path(), an.ModulePath+"/pkg/trait") && !c.Prog.IsGenerated(cal.Pos()) {
+				if writes(cal, depth+1) {
+					res = true
+				}
+			}
+		})
+		if res {
+			memo[fn] = 1
+		}
+		return res
+	}
+	var derives func(v ssa.Value, from map[ssa.Value]bool, depth int) bool
+	derives = func(v ssa.Value, from map[ssa.Value]bool, depth int) bool {
+		if v == nil || depth > 8 {
+			return false
+		}
+		if from[v] {
+			return true
+		}
+		switch x := v.(type) {
+		case *ssa.Extract:
+			return derives(x.Tuple, from, depth+1)
+		case *ssa.Phi:
+			for _, e := range x.Edges {
+				if derives(e, from, depth+1) {
+					return true
+				}
+			}
+		case *ssa.Call:
+			for _, a := range x.Call.Args {
+				if derives(a, from, depth+1) {
+					return true
+				}
+			}
+			if x.Call.IsInvoke() {
+				return derives(x.Call.Value, from, depth+1)
+			}
+		case *ssa.BinOp:
+			return derives(x.X, from, depth+1) || derives(x.Y, from, depth+1)
+		case *ssa.UnOp:
+			if x.Op == token.MUL {
+				if cell := an.CellOf(x.X); cell != nil {
+					for _, st := range an.StoresTo(cell) {
+						if derives(st.Val, from, depth+1) {
+							return true
+						}
+					}
+					return false
+				}
+			}
+			return derives(x.X, from, depth+1)
+		case *ssa.MakeInterface:
+			return derives(x.X, from, depth+1)
+		case *ssa.ChangeInterface:
+			return derives(x.X, from, depth+1)
+		case *ssa.TypeAssert:
+			return derives(x.X, from, depth+1)
+		case *ssa.Slice:
+			return derives(x.X, from, depth+1)
+		case *ssa.IndexAddr:
+			return derives(x.X, from, depth+1)
+		case *ssa.FieldAddr:
+			return derives(x.X, from, depth+1)
+		}
+		return false
+	}
+	for _, fn := range c.Prog.FuncsIn("pkg/trait") {
+		if c.Prog.IsGenerated(fn.Pos()) || fn.Parent() != nil {
+			continue
+		}
+		res := fn.Signature.Results()
+		if res.Len() == 0 || !an.IsErrorType(res.At(res.Len()-1).Type()) {
+			continue
+		}
+		var ws []*ssa.Call
+		an.Instrs(fn, func(in ssa.Instruction) {
+			call, ok := in.(*ssa.Call)
+			if !ok {
+				return
+			}
+			if isResourceWrite(call) {
+				ws = append(ws, call)
+				return
+			}
+			if cal := call.Call.StaticCallee(); cal != nil && cal.Package() != nil && strings.HasPrefix(cal.Package().Pkg.Path(), an.ModulePath+"/pkg/trait") && !c.Prog.IsGenerated(cal.Pos()) && writes(cal, 0) {
+				ws = append(ws, call)
+			}
+		})
+		if len(ws) == 0 {
+			continue
+		}
+		name := an.FuncName(fn)
+		c.SawFunc(name)
+		from := map[ssa.Value]bool{}
+		errFrom := map[ssa.Value]bool{}
+		for _, w := range ws {
+			from[w] = true
+			for _, u := range an.Referrers(w) {
+				if ex, isEx := u.(*ssa.Extract); isEx && an.IsErrorType(ex.Type()) {
+					errFrom[ex] = true
+				}
+			}
+			if an.IsErrorType(w.Type()) {
+				errFrom[w] = true
+			}
+		}
+		bad := ""
+		var where token.Pos = fn.Pos()
+		for _, r := range an.Returns(fn) {
+			after := false
+			for _, w := range ws {
+				if an.Reaches(w, r) {
+					after = true
+				}
+			}
+			if !after {
+				continue
+			}
+			// guarded by a condition on the write's results?
+			guarded := false
+			for _, e := range an.GuardingEdges(r) {
+				if !derives(e.If.Cond, from, 0) {
+					continue
+				}
+				// only conditions that say "the write did not happen": its error is non-nil / matches a code,
+				// or its value result is nil
+				if x, trueMeansNil, isNil := an.NilTest(e.If.Cond); isNil {
+					isWriteResult := false
+					for _, s := range an.Sources(x) {
+						if from[s] {
+							isWriteResult = true
+						}
+						if ex, isEx := s.(*ssa.Extract); isEx && from[ex.Tuple] {
+							isWriteResult = true
+						}
+					}
+					if !isWriteResult {
+						continue
+					}
+					isErr := an.IsErrorType(x.Type())
+					if (isErr && e.Branch != trueMeansNil) || (!isErr && e.Branch == trueMeansNil) {
+						guarded = true
+					}
+					continue
+				}
+				// e.g. status.Code(err) == codes.NotFound, errors.Is(err, X): a positive match on the write's error
+				if derives(e.If.Cond, errFrom, 0) && e.Branch {
+					guarded = true
+				}
+			}
+			errRes := r.Results[len(r.Results)-1]
+			vals := an.ValuesAt(errRes)
+			if load, isLoad := errRes.(*ssa.UnOp); isLoad && load.Op == token.MUL && an.CellOf(load.X) != nil {
+				vals = []ssa.Value{errRes} // a captured variable: judged by who assigns it, below
+			}
+			for _, v := range vals {
+				if an.IsNilConst(v) || derives(v, errFrom, 0) || guarded {
+					continue
+				}
+				// the error result of a function that never fails (every return hands back a nil error)
+				if ex, isEx := v.(*ssa.Extract); isEx {
+					if call, isCall := ex.Tuple.(*ssa.Call); isCall {
+						if cal := call.Call.StaticCallee(); cal != nil && len(cal.Blocks) > 0 {
+							never := true
+							for _, cr := range an.Returns(cal) {
+								if !an.IsNilConst(cr.Results[len(cr.Results)-1]) {
+									never = false
+								}
+							}
+							if never {
+								continue
+							}
+						}
+					}
+				}
+				// an error captured from an interceptor that neutralised the write
+				if load, isLoad := v.(*ssa.UnOp); isLoad && load.Op == token.MUL {
+					if cell := an.CellOf(load.X); cell != nil {
+						okCell, seenStore := true, false
+						for _, st := range an.StoresTo(cell) {
+							if an.IsNilConst(st.Val) {
+								continue
+							}
+							sf := st.Parent()
+							if sf == fn {
+								// assigned in the function itself before the write: a validation error would have returned earlier
+								okCell = false
+								continue
+							}
+							seenStore = true
+							if len(sf.Params) != 2 {
+								okCell = false
+								continue
+							}
+							restores := func(in ssa.Instruction) bool {
+								call, ok := in.(*ssa.Call)
+								if !ok || an.CalleeName(call) != "google.golang.org/protobuf/proto.Merge" {
+									return false
+								}
+								a0 := derives(call.Call.Args[0], map[ssa.Value]bool{sf.Params[1]: true}, 0)
+								a1 := derives(call.Call.Args[1], map[ssa.Value]bool{sf.Params[0]: true}, 0)
+								return a0 && a1
+							}
+							t, _ := an.PathQuery{Target: func(x ssa.Instruction) bool { _, isRet := x.(*ssa.Return); return isRet }, Avoid: restores}.From(sf, st)
+							if t != nil {
+								okCell = false
+							}
+						}
+						if okCell && seenStore {
+							continue
+						}
+					}
+				}
+				bad = "an error that does not come from the write is returned after the write has been performed"
+				where = r.Pos()
+			}
+		}
+		c.Check(bad == "", rule, name+"|an error is reported only when nothing was written", where, fmt.Sprintf("%d write(s)", len(ws)),
+			bad+": the resource write in this function cannot be undone by returning an error afterwards (an interceptor cannot abort it), so a request answered with an error status has still changed what Get returns and has been published to Pull streams. Reject before the write, or restore the old value inside the interceptor (proto.Reset/Merge(new, old)) before reporting")
 	}
 }
